@@ -38,7 +38,7 @@ MANIFEST = dict(
          "through ELASTICARRAY_DECL instances), elastic queues, sequential pointer maps and an MPOOL instance. Exploration is the right level: "
          "the state space (interleavings of grow, shrink, front compaction, tombstone trimming, cache doubling) is unbounded, the models are exact, "
          "and the interesting classes (growth + reallocating shrink + mixed record sizes, move-to-front, middle deletion then front trimming, "
-         "stack doubling, overflowing products) are generated deliberately and counted in the evidence.",
+         "stack doubling, overflowing products) are generated deliberately and counted in the evidence. Shrinks whose realloc is refused (the documented exception) are followed by growth, after which the factor-4 bound is demanded again.",
     note="Trusted: clang 14 + ASan/UBSan, rapidcheck, GNU ld --wrap, the models in props/C12/core.cpp. 'Within a factor 4' is checked as "
          "floor(alloc/4) <= size (the code's integer form; alloc = 7, size = 1 is rounding). Allocation failure is out of scope here (C14). "
          "The pool's exit promise is checked in a forked process per history that really calls exit().",
